@@ -706,6 +706,10 @@ def _incr_numeric(
         pytag     = version.PEP440_TAG_BY_TAG[tag]
         cur_vinfo = cur_vinfo._replace(pytag=pytag)
 
+    if cur_vinfo.tag == "final":
+        # a final release has no release number
+        cur_vinfo = cur_vinfo._replace(num=0)
+
     if not pin_increments:
         cur_vinfo = cur_vinfo._replace(inc0=cur_vinfo.inc0 + 1)
         cur_vinfo = cur_vinfo._replace(inc1=cur_vinfo.inc1 + 1)
